@@ -509,7 +509,8 @@ def canon_nc(nc, root, table, problems):
                 problems.append("member-not-in-parent-set")
         out["a"] = list(pa) + [r]
         out["p"] = list(pa)
-    # ancestry as address chain, path text
+    # the ancestry must walk, by object identity, from the root to the node
+    out["anc_walk"] = ancestry_walk(nc, root)
     anc = []
     for (ap, aref) in (nc.ancestry or []):
         apa = table.get(id(ap))
@@ -520,6 +521,33 @@ def canon_nc(nc, root, table, problems):
     out["anc"] = anc
     out["path"] = str(nc.path) if nc.path is not None else None
     return out
+
+
+def ancestry_walk(nc, root):
+    """None when nc.ancestry is a chain root -> … -> node (each step parent[ref] is the next parent,
+    the last one is the node / a member); else a short reason."""
+    from ruamel.yaml.comments import CommentedSet
+    anc = nc.ancestry or []
+    if nc.parent is None:
+        return None if not anc else "root-with-ancestry"
+    if not anc:
+        return "empty"
+    if anc[0][0] is not root:
+        return "does-not-start-at-root"
+    for i, (obj, ref) in enumerate(anc):
+        nxt = anc[i + 1][0] if i + 1 < len(anc) else nc.node
+        try:
+            if isinstance(obj, (CommentedSet, set)):
+                ok = ref in obj and i + 1 == len(anc) and (ref is nxt or ref == nxt)
+            else:
+                ok = obj[ref] is nxt
+        except Exception:
+            ok = False
+        if not ok:
+            return "step-%d-does-not-lead-on" % i
+    if anc[-1][0] is not nc.parent:
+        return "last-entry-is-not-the-parent"
+    return None
 
 
 def run_query(doc_json, text, mode):
@@ -759,30 +787,23 @@ def c02_compare(case, kinds, req, m_req, d, table, stats, report, viol):
             continue
         if len(ir["a"]) >= 2:
             stats["deep_results"] += 1
-        want_p = canon_addr(d, table, mr["p"]) if mr["p"] is not None else None
+        want_p = None
+        if mr["p"] is not None:
+            pobj = resolve(d, mr["p"])
+            want_p = table.get(id(pobj), mr["p"]) if pobj is not None else mr["p"]
         if ir.get("p") != want_p:
             report(viol, "c02:parent-differs:%s" % kinds, "%r: parent of result %s is %s, expected %s" % (
                 text, ir["a"], ir.get("p"), want_p), dict(case, impl=ir, model=mr, prop="C02"))
             continue
-        # ancestry = chain of (prefix address, reference) from the root
-        chain = []
         a = ir["a"]
-        okchain = True
-        for i, (ap, aref) in enumerate(ir.get("anc") or []):
-            if ap is None:
-                okchain = False
-                break
-            parent = resolve(d, ap)
-            ref = list(aref)
-            if ref[0] == "i" and parent is not None and isinstance(ref[1], int) and -len(parent) <= ref[1] < len(parent):
-                ref = ["i", ref[1] % len(parent)]
-            chain.append(list(ap) + [ref])
-        want_chain = [canon_addr(d, table, a[:i + 1]) for i in range(len(a))]
-        if not okchain or chain != want_chain:
-            report(viol, "c02:ancestry-not-chain:%s" % kinds, "%r: ancestry of result %s walks %s, expected %s" % (
-                text, a, chain if okchain else "an object outside the document", want_chain),
-                dict(case, impl=ir, model=mr, prop="C02"))
+        if ir.get("anc_walk") is not None:
+            report(viol, "c02:ancestry-not-chain:%s" % kinds, "%r: ancestry of result %s: %s" % (text, a, ir["anc_walk"]),
+                   dict(case, impl=ir, model=mr, prop="C02"))
             continue
+        if len(ir.get("anc") or []) != len(mr.get("anc") or []):
+            report(viol, "c02:ancestry-length-differs-from-model:%s" % kinds,
+                   "%r: ancestry of result %s has %d entries, the model %d" % (text, a, len(ir.get("anc") or []), len(mr.get("anc") or [])),
+                   dict(case, impl=ir, model=mr, prop="C02-model"))
         # path text: model sections joined; then the re-query
         ptxt = ir.get("path")
         if ptxt is None:
